@@ -201,8 +201,8 @@ theorem call_fresh_frame (fuel : Nat) (a : Nat) (bound : List (String × RVal)) 
           let r ← eval ld fuel s.frames.size body
           match r with
           | .ret v _ => pure v
-          | .brk _ => throwE "break outside of a loop" {}
-          | .cont _ => throwE "continue outside of a loop" {}
+          | .brk p => throwE "Cannot use break without surrounding loop" p
+          | .cont p => throwE "Cannot use continue without surrounding loop" p
           | v => pure v : EvalM RVal) (s.newEnv cenv).1
     ∧ ((s.newEnv cenv).1.frame s.frames.size).parent = some cenv
     ∧ ((s.newEnv cenv).1.frame s.frames.size).vars = [] := by
